@@ -30,7 +30,7 @@ def draw_case(draw, closed=()):
     b = gen.Builder(g, cfg)
     p = b.grow(b.heads[0], g.pick([0, 0, 1, 1, 2, 3]), wander=0)
     sch = b.schemas[p]
-    kind = g.pick(["grouped", "grouped", "ungrouped", "window", "window"])
+    kind = g.pick(["grouped", "grouped", "ungrouped", "ungrouped", "window", "window"])
     nd = None
     for _ in range(8):
         if kind == "window":
@@ -40,6 +40,9 @@ def draw_case(draw, closed=()):
                 break
         else:
             cand = gen.step_project(g, sch)
+            if cand is not None and kind == "ungrouped" and cand["group_by"]:
+                # the shared step prefers grouped projects: strip the grouping (any/all are grouped-only, see vp.gen)
+                cand = {"op": "project", "group_by": [], "ops": [o for o in cand["ops"] if o[1][1] not in ("any", "all")]}
             if cand is not None and bool(cand["group_by"]) == (kind == "grouped") and (cand["ops"] or kind == "grouped"):
                 nd = cand
                 break
